@@ -19,6 +19,10 @@ pub tracked struct World {
     pub ghost done: Chan,           // scheduler / FnRef::drop -> queuer: ids that finished
     pub ghost done_recv: Set<int>,  // ids whose done notification has been processed by the queuer side
     pub ghost handed: Seq<int>,     // ids taken out of the ready channel (= handed to the caller), in order
+    pub ghost trace: Seq<Ev>,       // what the current item closure did so far, in order (local to the item: exact)
+    pub ghost ticket: bool,         // the current item was handed out and has not decremented fns_remaining yet
+    pub ghost done_tx_gone: bool,   // the scheduler's done sender was taken out of its cell (monotone)
+    pub ghost chans_created: int,   // mpsc::channel calls so far in this run (0: ready channel, 1: done channel)
 }
 
 // ---- per-item event trace and stable facts (used by the item closures, DESIGN §5) ----
@@ -32,17 +36,16 @@ pub ghost enum Ev {
     Decrement,            // fns_remaining was decremented
 }
 
-pub uninterp spec fn trace(w: World) -> Seq<Ev>;
+pub open spec fn trace(w: World) -> Seq<Ev> { w.trace }
 /// this item holds a "ticket": it was handed out and has not decremented fns_remaining yet
-pub uninterp spec fn ticket(w: World) -> bool;
+pub open spec fn ticket(w: World) -> bool { w.ticket }
 /// the scheduler's done sender has been taken out of its cell (monotone: it is never put back)
-pub uninterp spec fn done_tx_gone(w: World) -> bool;
+pub open spec fn done_tx_gone(w: World) -> bool { w.done_tx_gone }
 
 /// facts that survive every suspension point and every effect that is not about them
 pub open spec fn keeps(w0: World, w1: World) -> bool {
     &&& ticket(w1) == ticket(w0)
     &&& (done_tx_gone(w0) ==> done_tx_gone(w1))
-    &&& w1.n == w0.n
 }
 
 
